@@ -7,7 +7,8 @@ from harness.drivers import c03
 
 chk = Check("C03X")
 cfg = {'shape': [2, 3, 2], 'hasw': True, 'op': 'cp', 'rank': [2], 'bad': 'none', 'at': 0, 'lens': [],
-       'fshapes': [[2, 2], [3, 2], [2, 2]], 'wlen': 2, 'coreshape': [], 'pshapes': [], 'dl': 0, 'pden': 1, 'skip': -1, 'tr': False, 'modes': []}
+       'fshapes': [[2, 2], [3, 2], [2, 2]], 'wlen': 2, 'coreshape': [], 'pshapes': [], 'dl': 0, 'pden': 1, 'skip': -1, 'tr': False, 'modes': [],
+       'mix': 'none', 'dens': [1, 1, 1], 'cden': 1, 'imk': 0, 'outdtype': 'float64', 'dtypes': ['float64'] * 3}
 ev = c03.execute({"id": "good", "cfg": cfg, "seed": 1, "k": 0, "draw": 0})
 evs = [ev]
 def mut(name, f):
@@ -32,11 +33,16 @@ e6 = copy.deepcopy(e5); e6["id"] = "inv_p2_accepted"; e6["runs"]["einsum_object"
 cfg4 = dict(cfg, op="tucker", hasw=False, wlen=0, shape=[2, 3, 2], rank=[2, 1, 2], fshapes=[[2, 2], [3, 1], [2, 2]], coreshape=[2, 1, 2], skip=1)
 e7 = c03.execute({"id": "opt_good", "cfg": cfg4, "seed": 1, "k": 0, "draw": 0}); evs.append(e7)
 e8 = copy.deepcopy(e7); e8["id"] = "opt_vec_full"; e8["runs"]["core_tuple"]["vec"]["data"][0] += 1; evs.append(e8)
+cfg5 = dict(cfg, mix="cplx_last", dens=[2, 2, 2], imk=3, outdtype="complex128", dtypes=["float64", "float64", "complex128"])
+e9 = c03.execute({"id": "mix_good", "cfg": cfg5, "seed": 1, "k": 0, "draw": 0}); evs.append(e9)
+e10 = copy.deepcopy(e9); e10["id"] = "mix_imag_lost"; e10["runs"]["core_tuple"]["dense"]["im"] = [0] * len(e10["runs"]["core_tuple"]["dense"]["im"]); evs.append(e10)
+e11 = copy.deepcopy(e9); e11["id"] = "mix_dtype"; e11["runs"]["einsum_object"]["dtype"] = "float64"; evs.append(e11)
+e12 = copy.deepcopy(ev); e12["id"] = "seq_mutated"; e12["runs"]["core_object_seq"]["dense2"]["data"][0] += 1; evs.append(e12)
 rej = chk.validate("FactorizedTrace", evs)
 for r in sorted(rej): print(r)
 print("machinery:", chk.machinery)
 ids = {r[0] for r in rej}
-good = {"good", "inv_good", "inv_p2_good", "opt_good"}
+good = {"good", "inv_good", "inv_p2_good", "opt_good", "mix_good"}
 assert not chk.machinery and not (ids & good) and len(ids) == len(evs) - len(good), ("self-test failed", ids & good)
 print("OK: %d corrupted events rejected, %d genuine events accepted" % (len(ids), len(good)))
 shutil.rmtree(chk.work)
